@@ -3,7 +3,7 @@
    finishReloadSuccess, ...) with the observation the harness made after each call.  Three comparisons
    per step: implementation = model (C20_Model, calls executed without interleaving), implementation =
    spec (the lock of C20_Spec at operation granularity), model = spec. *)
-From Coq Require Import List NArith Bool Arith.
+From Coq Require Import List NArith ZArith Bool Arith.
 From Dae Require Import C20_Spec C20_Model.
 Import ListNotations.
 
@@ -21,9 +21,15 @@ Inductive cop :=
 | ONotify
 | OFinishOk
 | OFinishFail
-| OStartRetirement
+| OStartRetirement            (* startControlPlaneRetirement, no dialer overlap (connections aborted at once) *)
+| OStartRetirementWith (p : ret_params)   (* ... with these circumstances *)
 | OClearPendingRetirement
-| ORetire (d : nat)           (* retirement d finishes; goroutines waiting on it run to completion *)
+| ORetire (d : nat) (wait : N)  (* retirement goroutine d runs, [wait] ns pass; goroutines waiting on it run *)
+| OSessionsEnd (d : nat)      (* the old generation of retirement d goes idle *)
+| OWaitDrain (maxw : Z) (sessions : nat) (idle_at cancel_at : option N) (watch : N)
+                              (* waitForControlPlaneDrain(ctx, plane, maxw): result 0 idle 1 cancelled 2 timeout,
+                                 3 = still waiting when the watchdog stopped it after [watch] ns *)
+| OBudget (budget : Z) (elapsed : N) (zero : bool)   (* remainingReloadRetirementBudget *)
 | OReadyWaitSignal            (* a reload signal arrives while the main loop sits in waitReloadReadyOrSignal *)
 | OEnd.                       (* EndReloadProxyFailureSuppression() alone (adversarial cases) *)
 
@@ -49,6 +55,28 @@ Definition obs_eqb (a b : obs) : bool :=
   && Bool.eqb (o_reloading a) (o_reloading b) && Nat.eqb (o_supp a) (o_supp b)
   && Nat.eqb (o_qlen a) (o_qlen b) && pcode_eqb (o_code a) (o_code b) && msg_eqb (o_msg a) (o_msg b)
   && Bool.eqb (o_suppressed a) (o_suppressed b) && N.eqb (o_ret a) (o_ret b).
+
+(* waitForControlPlaneDrain in virtual time: the earliest of context cancellation, idle signal and
+   timer (armed according to the guard found in the source; a non-positive duration fires at 0) *)
+Definition drain_wait_result (g : guard) (maxw : Z) (sessions : nat) (idle_at cancel_at : option N) (watch : N) : N :=
+  if Nat.eqb sessions 0 then 0%N else
+  let timer := if timer_armed g maxw then Some (Z.to_N maxw) else None in
+  let lt a b := match a, b with Some x, Some y => N.ltb x y | Some _, None => true | None, _ => false end in
+  let first (a : option N) (b c : option N) := match a with Some x => N.ltb x watch && negb (lt b a) && negb (lt c a) | None => false end in
+  if first cancel_at idle_at timer then 1%N
+  else if first idle_at cancel_at timer then 0%N
+  else if first timer cancel_at idle_at then 2%N
+  else 3%N.
+
+(* remainingReloadRetirementBudget reads the real clock: equal up to 60 ms *)
+Definition obs_close (o : cop) (a b : obs) : bool :=
+  match o with
+  | OBudget _ _ _ =>
+      let x := o_ret a in let y := o_ret b in
+      (N.leb x (y + 60000000) && N.leb y (x + 60000000))%N
+      && obs_eqb a (Build_obs (o_pending b) (o_active b) (o_reloading b) (o_supp b) (o_qlen b) (o_code b) (o_msg b) (o_suppressed b) x)
+  | _ => obs_eqb a b
+  end.
 
 (* ---- model at call granularity ---- *)
 Record mstate := { ms : state; ms_req : bool }.
@@ -92,9 +120,13 @@ Definition mstep (T : tables) (m : mstate) (o : cop) : mstate * N :=
   | ONotify => keep s 0%N
   | OFinishOk => keep (sweep T (call_prog T s (expand [EFinishOk]))) 0%N
   | OFinishFail => keep (call_prog T s (expand [EFinishFail])) 0%N
-  | OStartRetirement => keep (call_prog T s [PStartRetirement]) 0%N
+  | OStartRetirement => keep (call_prog T (set_next_ret default_params s) [PStartRetirement]) 0%N
+  | OStartRetirementWith p => keep (call_prog T (set_next_ret p s) [PStartRetirement]) 0%N
   | OClearPendingRetirement => keep (call_prog T s [PClearPendingRetirement]) 0%N
-  | ORetire d => keep (call_retire T s d) 0%N
+  | ORetire d w => keep (call_retire T s d w) 0%N
+  | OSessionsEnd d => keep (step T s (ASessionsEnd d)) 0%N
+  | OWaitDrain maxw n ia ca watch => keep s (drain_wait_result (t_timer_guard T) maxw n ia ca watch)
+  | OBudget b e z => keep s (Z.to_N (remaining_budget b e z))
   | OReadyWaitSignal => keep s 0%N     (* waitReloadReadyOrSignal: `continue` — the signal is dropped *)
   | OEnd => keep (call_prog T s [PEndSupp]) 0%N
   end.
@@ -105,15 +137,26 @@ Record sstate := {
   ss_ret : option nat;          (* retirement the next success will wait for *)
   ss_wait : option nat;         (* retirement the released request is waiting for (phase Retiring) *)
   ss_closed : list nat;
-  ss_next : nat                 (* number of retirements started *)
+  ss_next : nat;                (* number of retirements started *)
+  ss_need : list N              (* per retirement: the time after which it must have finished (the
+                                   remaining reload budget; 0 when nothing has to be waited for) *)
 }.
-Definition sinit : sstate := {| ss_phase := Free; ss_ret := None; ss_wait := None; ss_closed := []; ss_next := 0 |}.
+Definition sinit : sstate := {| ss_phase := Free; ss_ret := None; ss_wait := None; ss_closed := []; ss_next := 0; ss_need := [] |}.
 
-Definition set_phase p (x : sstate) := {| ss_phase := p; ss_ret := ss_ret x; ss_wait := ss_wait x; ss_closed := ss_closed x; ss_next := ss_next x |}.
+Definition set_phase p (x : sstate) := {| ss_phase := p; ss_ret := ss_ret x; ss_wait := ss_wait x; ss_closed := ss_closed x; ss_next := ss_next x; ss_need := ss_need x |}.
+
+(* the old generation must be gone once the reload budget (counted from the request) is used up;
+   at once when the user asked for --abort, nothing is shared, or it has no sessions *)
+Definition spec_need (total : Z) (p : ret_params) : N :=
+  if rp_abort p || negb (rp_overlap p) || Nat.eqb (rp_sessions p) 0 then 0%N
+  else if rp_zero_start p then Z.to_N total
+  else Z.to_N (total - Z.of_N (rp_elapsed p)).
+Fixpoint zero_last (l : list N) : list N :=
+  match l with [] => [] | [_] => [0%N] | x :: l' => x :: zero_last l' end.
 
 (* translation of a call into an event of the spec; returns the new spec state and the answer the
    spec demands (for requests) *)
-Definition sstep (x : sstate) (o : cop) (took : bool) : sstate * option answer :=
+Definition sstep (total : Z) (x : sstate) (o : cop) (took : bool) : sstate * option answer :=
   match o with
   | OQueue _ | OReadyWaitSignal =>
       let '(p, a) := phase_step (ss_phase x) OpRequest in (set_phase p x, a)
@@ -129,20 +172,37 @@ Definition sstep (x : sstate) (o : cop) (took : bool) : sstate * option answer :
                       | None => None
                       end in
       let p := fst (phase_step (ss_phase x) (OpSucceed (match open_ret with Some _ => true | None => false end))) in
-      ({| ss_phase := p; ss_ret := None; ss_wait := open_ret; ss_closed := ss_closed x; ss_next := ss_next x |}, None)
-  | OStartRetirement =>
-      ({| ss_phase := ss_phase x; ss_ret := Some (ss_next x); ss_wait := ss_wait x; ss_closed := ss_closed x; ss_next := S (ss_next x) |}, None)
+      ({| ss_phase := p; ss_ret := None; ss_wait := open_ret; ss_closed := ss_closed x; ss_next := ss_next x; ss_need := ss_need x |}, None)
+  | OStartRetirement | OStartRetirementWith _ =>
+      let p := match o with OStartRetirementWith p => p | _ => default_params end in
+      (* starting a retirement accelerates the previous one *)
+      ({| ss_phase := ss_phase x; ss_ret := Some (ss_next x); ss_wait := ss_wait x; ss_closed := ss_closed x; ss_next := S (ss_next x);
+          ss_need := zero_last (ss_need x) ++ [spec_need total p] |}, None)
   | OClearPendingRetirement =>
-      ({| ss_phase := ss_phase x; ss_ret := None; ss_wait := ss_wait x; ss_closed := ss_closed x; ss_next := ss_next x |}, None)
-  | ORetire d =>
-      let waited := match ss_wait x with Some w => Nat.eqb w d | None => false end in
-      let p := if waited then fst (phase_step (ss_phase x) OpRetired) else ss_phase x in
-      ({| ss_phase := p; ss_ret := ss_ret x; ss_wait := if waited then None else ss_wait x;
-          ss_closed := d :: ss_closed x; ss_next := ss_next x |}, None)
+      ({| ss_phase := ss_phase x; ss_ret := None; ss_wait := ss_wait x; ss_closed := ss_closed x; ss_next := ss_next x; ss_need := ss_need x |}, None)
+  | OSessionsEnd d =>
+      ({| ss_phase := ss_phase x; ss_ret := ss_ret x; ss_wait := ss_wait x; ss_closed := ss_closed x; ss_next := ss_next x;
+          ss_need := upd (ss_need x) d 0%N |}, None)
+  | ORetire d w =>
+      if N.leb (nth d (ss_need x) 0%N) w then
+        let waited := match ss_wait x with Some w' => Nat.eqb w' d | None => false end in
+        let p := if waited then fst (phase_step (ss_phase x) OpRetired) else ss_phase x in
+        ({| ss_phase := p; ss_ret := ss_ret x; ss_wait := if waited then None else ss_wait x;
+            ss_closed := d :: ss_closed x; ss_next := ss_next x; ss_need := ss_need x |}, None)
+      else (x, None)
   | _ => (x, None)
   end.
 
 (* does an observation satisfy what the spec demands after this step?  [prev] = observation before *)
+Definition probe_ok (o : cop) (cur : obs) : bool :=
+  match o with
+  | OWaitDrain maxw _ _ _ watch =>
+      (* the wait is over when the budget is: it never outlasts max(maxw, 0) *)
+      if N.ltb (Z.to_N maxw) watch then negb (N.eqb (o_ret cur) 3) else true
+  | OBudget b _ _ => N.leb (o_ret cur) (Z.to_N b)
+  | _ => true
+  end.
+
 Definition spec_accepts (x' : sstate) (o : cop) (ans : option answer) (prev cur : obs) : bool :=
   Bool.eqb (o_pending cur) (phase_held (ss_phase x'))
   && Nat.eqb (o_supp cur) (phase_muted (ss_phase x'))
@@ -187,10 +247,10 @@ Fixpoint check_steps (T : tables) (legal : bool) (steps : list (cop * obs)) (m :
       let '(m', r) := mstep T m o in
       let mo := observe (ms m') r in
       let took := negb (N.eqb (o_ret io) 2) in
-      let '(x', ans) := sstep x o took in
-      let e1 := if obs_eqb io mo then [] else [(n, 1%N)] in
-      let e2 := if (legal && negb (spec_accepts x' o ans prev_i io)) || negb (refusal_ok o prev_i io) then [(n, 2%N)] else [] in
-      let e3 := if (legal && negb (spec_accepts x' o ans prev_m mo)) || negb (refusal_ok o prev_m mo) then [(n, 3%N)] else [] in
+      let '(x', ans) := sstep (t_budget_total T) x o took in
+      let e1 := if obs_close o io mo then [] else [(n, 1%N)] in
+      let e2 := if (legal && negb (spec_accepts x' o ans prev_i io)) || negb (refusal_ok o prev_i io) || negb (probe_ok o io) then [(n, 2%N)] else [] in
+      let e3 := if (legal && negb (spec_accepts x' o ans prev_m mo)) || negb (refusal_ok o prev_m mo) || negb (probe_ok o mo) then [(n, 3%N)] else [] in
       let '(es, fin) := check_steps T legal rest m' x' io mo (n + 1)%N in
       (e1 ++ e2 ++ e3 ++ es, fin)
   end.
